@@ -464,6 +464,9 @@ def core_canon(mods, maxpay, nkeys=1):
         pay = S["pay"]
         pay = pay if isinstance(pay, list) else [_fn(pay)[k] for k in sorted(_fn(pay))]
         parts.append("pay:" + "".join({"unused": "u", "live": "l", "freed": "f"}[x["st"]] for x in pay))
+        # task threads executing the user's function
+        trun = sorted("%s%d" % (t[0], t[1]) for t in setof(S.get("trun", [])))
+        parts.append("tk:" + (",".join(trun) if trun else "_"))
         stack = S["stack"]
         depth = sum(1 for f in stack if f["k"] == "cb")
         parts.append("d%d" % depth)
@@ -491,6 +494,19 @@ def core_canon(mods, maxpay, nkeys=1):
             for key in range(1, 4):
                 if any(q["k"] == "tmr" and q["key"] == key for q in ss) and any(d[0] == m and d[1] == key for d in due):
                     rdy += "%st%d," % (m, key)
+            xdue = setof(S.get("xdue", []))
+            for key in range(1, 4):
+                if key in setof(S.get("sigp", [])) and any(q["k"] == "sgn" and q["key"] == key for q in ss):
+                    rdy += "%sg%d," % (m, key)
+            for key in range(1, 4):
+                if any(q["k"] == "path" and q["key"] == key for q in ss) and any(d[0] == m and d[1] == "path" and d[2] == key for d in xdue):
+                    rdy += "%sh%d," % (m, key)
+            for key in range(1, 4):
+                if key in setof(S.get("dead", [])) and any(q["k"] == "pid" and q["key"] == key for q in ss):
+                    rdy += "%si%d," % (m, key)
+            for key in range(1, 4):
+                if any(q["k"] == "task" and q["key"] == key for q in ss) and any(d[0] == m and d[1] == "task" and d[2] == key for d in xdue):
+                    rdy += "%sj%d," % (m, key)
             if any(d[0] == m and d[1] == "tb" for d in idue):
                 rdy += "%sb0," % m
             if any(d[0] == m and d[1] == "bt" for d in idue):
@@ -501,7 +517,7 @@ def core_canon(mods, maxpay, nkeys=1):
     return canon
 
 
-CORE_WRAPS = ["-Wl,--wrap=epoll_wait,--wrap=write,--wrap=pipe,--wrap=close,--wrap=epoll_create1,--wrap=timerfd_create,--wrap=timerfd_settime"]
+CORE_WRAPS = ["-Wl,--wrap=epoll_wait,--wrap=write,--wrap=pipe,--wrap=close,--wrap=epoll_create1,--wrap=timerfd_create,--wrap=timerfd_settime,--wrap=pthread_join,--wrap=eventfd,--wrap=signalfd,--wrap=inotify_init1,--wrap=inotify_add_watch,--wrap=syscall"]
 
 
 def build_core():
@@ -547,6 +563,8 @@ CORE_CFGS = {
     "bc2": (["A", "B"], {"VP_CAP": "2", "VP_CTXPERSIST": "1", "VP_SETUP": "loop2", "VP_MAXPAY": "3"}),
     "batch": (["A", "B"], {"VP_CAP": "3", "VP_CTXPERSIST": "1", "VP_SETUP": "loop2", "VP_MAXPAY": "2"}),
     "stash": (["A", "B"], {"VP_CAP": "2", "VP_CTXPERSIST": "1", "VP_SETUP": "loop2", "VP_MAXPAY": "2"}),
+    "kev": (["A", "B"], {"VP_CAP": "2", "VP_CTXPERSIST": "1", "VP_SETUP": "loop2", "VP_NKEYS": "1"}),
+    "tsk": (["A", "B"], {"VP_CAP": "2", "VP_CTXPERSIST": "1", "VP_SETUP": "loop2", "VP_NKEYS": "1", "VP_TASKS": "1"}),
     "become": (["A", "B"], {"VP_CAP": "2", "VP_CTXPERSIST": "1", "VP_SETUP": "loop2", "VP_MAXPAY": "1"}),
 }
 
@@ -556,6 +574,10 @@ def core_check(prop, tier, seed, quick_cfgs, thorough_cfgs, rule, Dq=5, Dt=7, bu
     exe = build_core()
     quick = tier == "quick"
     cfgs = quick_cfgs if quick else thorough_cfgs
+    if os.environ.get("VP_ONLY"):      # debugging aid: restrict a run to some configurations
+        only = os.environ["VP_ONLY"].split(",")
+        cfgs = [c for c in only if c in CORE_CFGS and not c.endswith(".loop")]
+        loop_cfgs = [c[:-5] for c in only if c.endswith(".loop")]
     tasks = []
     for name in cfgs:
         mods, env = CORE_CFGS[name]
@@ -645,16 +667,16 @@ def c09(prop, tier, seed):
 
 @check("C03")
 def c03(prop, tier, seed):
-    return core_check(prop, tier, seed, ["fdev", "ps2q", "subos"], ["fdev", "ps2q", "subos", "ps3", "pub2"],
-                      "Focus: events of descriptor / timer / pubsub sources reach their owner with the registration userdata only while RUNNING; one-shot removal; poll batches of several sources in every order; errno left behind by callbacks; loop ends only on quit / no running module. "
+    return core_check(prop, tier, seed, ["fdev", "ps2q", "subos", "kev", "tsk"], ["fdev", "ps2q", "subos", "kev", "tsk", "ps3", "pub2"],
+                      "Focus: events of descriptor / timer / pubsub / signal / path / pid / task sources reach their owner with the registration userdata only while RUNNING; one-shot removal; poll batches of several sources in every order; errno left behind by callbacks; loop ends only on quit / no running module. "
                       "Configurations marked .loop are replayed a second time in loop mode: the loop is driven by blocking m_ctx_loop() calls (top-level steps executed from inside the wrapped epoll_wait, the stopping dispatch being what m_ctx_loop does before returning the quit code) and must show the same deliveries, states and return code.",
                       Dq=5, Dt=7, loop_cfgs=["ps2q", "fdev", "life"])
 
 
 @check("C20")
 def c20(prop, tier, seed):
-    return core_check(prop, tier, seed, ["fdev", "srca", "tick", "memfd"], ["fdev", "srca", "tick", "memfd", "life", "tb", "btmo"],
-                      "Focus: descriptor ledger: library descriptors (poll handle, pipes, timer descriptors) all closed in clean states, user descriptors closed only through auto-close and exactly once.", Dq=5, Dt=7)
+    return core_check(prop, tier, seed, ["fdev", "srca", "tick", "memfd", "kev", "tsk"], ["fdev", "srca", "tick", "memfd", "kev", "tsk", "life", "tb", "btmo"],
+                      "Focus: descriptor ledger: library descriptors (poll handle, pipes, timer / signal / path-watch / pid / task-notification descriptors) all closed in clean states, user descriptors closed only through auto-close and exactly once.", Dq=5, Dt=7)
 
 
 @check("C18")
@@ -665,13 +687,14 @@ def c18(prop, tier, seed):
 
 @check("C04")
 def c04(prop, tier, seed):
-    return core_check(prop, tier, seed, ["mem", "memfd", "life", "pub2", "tick", "stash"],
-                      ["mem", "memfd", "life", "ctx", "perm", "ps2q", "ps2", "pub2", "ps3", "bc2", "batch", "btmo", "stash", "stashb", "become", "fdev", "srca", "srcb", "subos", "tb", "tick"],
+    return core_check(prop, tier, seed, ["mem", "memfd", "life", "pub2", "tick", "stash", "tsk"],
+                      ["mem", "memfd", "tsk", "kev", "life", "ctx", "perm", "ps2q", "ps2", "pub2", "ps3", "bc2", "batch", "btmo", "stash", "stashb", "become", "fdev", "srca", "srcb", "subos", "tb", "tick"],
                       "C04 = memory and lifetime safety on every explored history: the union of the Core configurations replayed under ASan/UBSan "
                       "with the allocator ledger (nothing outstanding, nothing freed twice, in clean states), plus configurations in which the "
                       "program retains events beyond their invocation (and beyond the stop / deregistration of their module and the release of "
                       "the context) and extra references on module objects (zombies), releasing them in any order; retained events are re-read "
-                      "after every step.", Dq=5, Dt=6)
+                      "after every step; tasks whose thread is still inside the user's function when their module is paused, stopped, deregistered "
+                      "or the loop stops (the function returns only when the library waits for it, or afterwards if it does not wait).", Dq=5, Dt=6)
 
 
 # ------------------------------------------------------------------------------------------
